@@ -430,6 +430,51 @@ type Cache struct {
 	open     int         // Get / Set calls entered and not yet returned
 	over     bool        // the caller has declared the call that used this cache finished
 	late     int         // Get / Set calls that began after that
+	// prints: what every bundle OBJECT this cache ever held looked like when it
+	// arrived (Set / Preload) - the cache hands the same objects to every
+	// caller, so whoever writes into one interferes with all the others
+	prints map[*crl.Bundle]bundlePrint
+}
+
+type bundlePrint struct {
+	print       [32]byte
+	base, delta *x509.RevocationList
+	url         string
+}
+
+func (c *Cache) remember(url string, b *crl.Bundle) {
+	if b == nil {
+		return
+	}
+	if c.prints == nil {
+		c.prints = map[*crl.Bundle]bundlePrint{}
+	}
+	if _, ok := c.prints[b]; !ok {
+		c.prints[b] = bundlePrint{print: fingerprint(b), base: b.BaseCRL, delta: b.DeltaCRL, url: url}
+	}
+}
+
+// Preload stores a bundle as if an earlier process run had cached it.
+func (c *Cache) Preload(url string, b *crl.Bundle) {
+	c.mu.Lock()
+	defer c.mu.Unlock()
+	c.M[url] = b
+	c.remember(url, b)
+}
+
+// Modified lists the bundle objects held (now or earlier) by this cache that
+// no longer are what they were when the cache received them.
+func (c *Cache) Modified() []string {
+	c.mu.Lock()
+	defer c.mu.Unlock()
+	var out []string
+	for b, p := range c.prints {
+		if b.BaseCRL != p.base || b.DeltaCRL != p.delta || fingerprint(b) != p.print {
+			out = append(out, p.url)
+		}
+	}
+	sort.Strings(out)
+	return out
 }
 
 // enter / exit bracket every Get and Set.
@@ -522,6 +567,7 @@ func (c *Cache) Set(ctx context.Context, url string, b *crl.Bundle) error {
 		return ErrCache
 	}
 	c.M[url] = b
+	c.remember(url, b)
 	c.Ops = append(c.Ops, CacheOp{Op: "set", URL: url})
 	return nil
 }
